@@ -36,6 +36,7 @@ theorem slotUpdate_eff (id : SlotId) (x : ValueData F) (s : S F) :
 theorem numSetInt_iff {d : Nat} (ih : SetIH cx d) {p : NodeId} {v : Int} {s s' : S F} :
     M.eff (nidIntSet cx (execRec cx d) p v) s = (.ok (), s') ↔ numSetInt cx (setSem cx d) p v s = some s' := by
   unfold nidIntSet numSetInt
+  try spec_norm
   by_cases h1 : isIntKind cx p = true
   · simp only [h1, if_true]; exact ih.int _ _ _ _
   · by_cases h2 : isFloatKind cx p = true
@@ -47,6 +48,7 @@ theorem numSetInt_iff {d : Nat} (ih : SetIH cx d) {p : NodeId} {v : Int} {s s' :
 theorem numSetFloat_iff {d : Nat} (ih : SetIH cx d) {p : NodeId} {v : F} {s s' : S F} :
     M.eff (nidFloatSet cx (execRec cx d) p v) s = (.ok (), s') ↔ numSetFloat cx (setSem cx d) p v s = some s' := by
   unfold nidFloatSet numSetFloat
+  try spec_norm
   by_cases h1 : isIntKind cx p = true
   · simp only [h1, if_true]; exact ih.int _ _ _ _
   · by_cases h2 : isFloatKind cx p = true
@@ -111,6 +113,7 @@ theorem vkSetInt_iff {d : Nat} (iv : ValIff cx d) (ih : SetIH cx d) {vk : ValueK
       exact ⟨(), s1, (numSetInt_iff ih).mpr h1, (copiesSetInt_iff ih cs s1 s').mpr h2⟩
   | pIndex sel es dflt =>
     simp only [vkIntSet, vkSetInt, M.eff_bind_ok_iff, M.eff_ofR]
+    try spec_norm
     constructor
     · rintro ⟨i, s1, h1, h2⟩
       simp only [Prod.mk.injEq] at h1
@@ -137,6 +140,7 @@ theorem vkSetFloat_iff {d : Nat} (iv : ValIff cx d) (ih : SetIH cx d) {vk : Valu
       exact ⟨(), s1, (numSetFloat_iff ih).mpr h1, (copiesSetFloat_iff ih cs s1 s').mpr h2⟩
   | pIndex sel es dflt =>
     simp only [vkFloatSet, vkSetFloat, M.eff_bind_ok_iff, M.eff_ofR]
+    try spec_norm
     constructor
     · rintro ⟨i, s1, h1, h2⟩
       simp only [Prod.mk.injEq] at h1
@@ -186,7 +190,7 @@ theorem writeAndCache_iff {d : Nat} (ihB : ValIH cx d) (ihA : SpecIH cx d) {rb :
     {s s' : S F} :
     M.eff (writeAndCache cx (execRec cx d) rb buf) s = (.ok (), s') ↔
       regWriteBytes cx (valSem cx d) rb buf s = some s' := by
-  simp only [writeAndCache, regWriteBytes, M.eff_bind_ok_iff, M.eff_ofR, Option.bind_eq_some_iff]
+  simp only [writeAndCache, regWriteBytes, M.eff_bind_ok_iff, M.eff_ofR, Option.bind_eq_some_iff, imageWrite_eq]
   constructor
   · rintro ⟨l, s1, h1, h2⟩
     simp only [Prod.mk.injEq] at h1
@@ -388,7 +392,7 @@ theorem strSetF_iff {d : Nat} (ihB : ValIH cx d) (ihA : SpecIH cx d)
       cases value with
       | imm id => simp [slotOrNodeStrSet, slotUpdate_eff, eq_comm]
       | pnode p =>
-        simp only [slotOrNodeStrSet, nidStrSet]
+        simp only [slotOrNodeStrSet, nidStrSet, strValued_eq]
         by_cases hk : isStrKind cx p = true
         · simp only [hk, if_true]; exact ih.str _ _ _ _
         · simp [hk]
@@ -404,9 +408,10 @@ theorem enumSetByValueF_iff {d : Nat} (ih : SetIH cx d) {n : NodeId} {v : Int} {
   | some nd =>
     cases nd <;> simp only <;> try (simp; done)
     rename_i b entries value
-    simp only [enumSetByValueOf, M.eff_bind_ok_iff, M.eff_ofRes, Prod.mk.injEq]
+    simp only [enumSetByValueOf, M.eff_bind_ok_iff, M.eff_ofRes, Prod.mk.injEq, firstEntryWithValue_eq]
     cases hf : findEntryByValue cx entries v with
     | ok o =>
+      simp only [resOpt, Option.join_some]
       cases o with
       | none => simp
       | some e =>
@@ -416,8 +421,8 @@ theorem enumSetByValueF_iff {d : Nat} (ih : SetIH cx d) {n : NodeId} {v : Int} {
           exact (sonSetInt_iff ih).mp h
         · intro h
           exact ⟨some e, s, ⟨rfl, rfl⟩, (sonSetInt_iff ih).mpr h⟩
-    | err e => simp
-    | panic => simp
+    | err e => simp [resOpt]
+    | panic => simp [resOpt]
 
 /-- successful writes at depth `d` are the reference writes (no formula nodes) -/
 theorem setIH (cx : Ctx F E) (hnf : NoFormulaNodes cx) : ∀ d, SetIH cx d
